@@ -18,7 +18,7 @@ RULE = ('flows that are random DAGs over 1-8 steps (quick cases 0..1091: every D
         '2-4 run_for/update calls; non-trivial = >=3 steps with >=1 dependency edge (or a deriver) and >=3 phases; '
         'distinct = distinct case spec')
 PLAN = {'quick': {'n': 8000, 'min_cases': 600}, 'thorough': {'n': 100000, 'min_cases': 10000}}
-REQUIRED_ORACLES = ['phase_per_batch', 'runtime_steps_run', 'once_per_phase', 'timestep_zero', 'sees_ancestors', 'not_descendants',
+REQUIRED_ORACLES = ['phase_per_batch', 'dependency_effects_visible', 'runtime_steps_run', 'once_per_phase', 'timestep_zero', 'sees_ancestors', 'not_descendants',
                     'generation_same_view', 'derivers_first_in_order', 'sees_batch_process_updates']
 ANCHORS = ['vivarium.core.engine:_StepGraph.get_execution_layers', 'vivarium.core.engine:_StepGraph.add',
            'vivarium.core.engine:_StepGraph.add_sequential', 'vivarium.core.engine:Engine.run_steps',
@@ -43,6 +43,11 @@ _ENUM = [(d, nder) for d in _SMALL for nder in (0, 1, 2)]
 
 
 def gen(r, tier, i):
+    if i >= len(_ENUM) * 4 and r.random() < 0.06:
+        # steps (also nested ones) of compartments that are generated, divided by copying and moved: C10's
+        # structural workload, judged here on the step clauses only
+        from vmon.checks import c10
+        return {'family': 'structural', 'c10': c10.gen(r, tier, i)}
     if i < len(_ENUM) * 4:
         deps, nder = _ENUM[i % len(_ENUM)]
         n = len(deps)
@@ -81,6 +86,11 @@ def gen(r, tier, i):
 
 
 def run(spec):
+    if spec.get('family') == 'structural':
+        from vmon.checks import c10
+        from vmon.util import harvest
+        return harvest(c10.run(spec['c10']), ('derived_values', 'derivers_first_in_order', 'steps_once_per_phase',
+                                              'step_timestep_zero', 'no_exception'), ['structural'])
     from vmon.sensors import Mon, MonEngine, LedgerStep, Ledger, drive
     V = Viol()
     n = len(spec['deps'])
@@ -152,6 +162,17 @@ def run(spec):
             steps['kill'] = Kill({})
             flow['kill'] = []
             topo['kill'] = {'cells': ('cells',), 'clk': ('genclk',), 'log': ('log',)}
+
+            class Watch(Step):
+                """Depends on the deleting step: it must be shown the hierarchy after that step's update."""
+                def ports_schema(self):
+                    return {'cells': {'*': {'x': {'_default': 0}}}, 'log': {'_default': [], '_updater': 'v_append'}}
+
+                def next_update(self, timestep, states):
+                    return {'log': [('watchsaw' if 'g' in states['cells'] else 'watchclear', 0, 0, 0)]}
+            steps['watch'] = Watch({})
+            flow['watch'] = [('kill',)]
+            topo['watch'] = {'cells': ('cells',), 'log': ('log',)}
     for pid, ts in enumerate(spec['procs']):
         name = 'p%d' % pid
         processes[name] = Ledger({'pid': name, 'ts': {'kind': 'const', 'v': ts}})
@@ -202,6 +223,9 @@ def run(spec):
         names = [ev[2][0] for ev in inv]
         nphases += 1
         if any(ev[0] == 'apply' and ev[1][0] == 'kill' for ev in ph):
+            w = [ev[1][0] for ev in ph if ev[0] == 'apply' and ev[1][0] in ('watchsaw', 'watchclear')]
+            V.check('dependency_effects_visible', w == ['watchclear'],
+                    lambda: ('a step depending on the deleting step was still shown the deleted compartment in that phase', w))
             # the generated compartment is deleted during this phase: its steps may have run or not,
             # every other step still runs exactly once
             killed = True
